@@ -214,7 +214,7 @@ package keeper
 
 // the collecting closure: after step k, keys = the first k keys and values = the unlocks of the first k entries, in order
 //@ func (Keeper).DequeueMatureUnlocks$1
-//@ property C15
+//@ property C15 C06
 //@ requires step: 0 <= walki && key == walkkey(walki) && value == walkval(walki)
 //@ requires keys: len(*keys) == walki && forall(j, 0, walki, (*keys)[j] == walkkey(j))
 //@ requires offs: offsinv(walki)
@@ -227,8 +227,9 @@ package keeper
 
 // the sweep: every entry with time <= block time is removed from the unlock queue and its unlocks are appended to the
 // execution queue, entry by entry in increasing time order, each exactly once (time stamps are ns, |t| < 10^30)
+// C06: this is the enqueue side of the hand-over for matured unlocks ("never dropped, duplicated or invented, first-in-first-out")
 //@ func (Keeper).DequeueMatureUnlocks
-//@ property C15 C11 C19
+//@ property C15 C11 C19 C06
 //@ let q0 = old(st.locking.EthTxQueue.Unlocks)
 //@ let q1 = st.locking.EthTxQueue.Unlocks
 //@ let tmin = (0 - 1000000000000000000000000000000)
